@@ -271,7 +271,7 @@ theorem handle_wired (s s' : Sys) (m : Msg) (ms : List Msg) (w : Wired s) (hwf :
       a ≠ s.reward.owner ∧ a ≠ s.reward.newOwner) : Wired s' := by
   cases handle_touch s s' m ms hx with
   | none h _ _ _ => exact w.of_same h
-  | hub s1 sender funds hm heq h1 hc hx' b t r d g =>
+  | hub s1 sender funds hm heq h1 _ hc hx' b t r d g =>
     have hs := hsender _ _ _ _ heq
     rcases hubExec_config _ _ _ _ _ _ _ hx' with c | c | c
     · exact ⟨by rw [b]; exact w.tokHub, by rw [c.dispatcher]; exact w.hubDisp, by rw [d]; exact w.dispRw,
